@@ -69,11 +69,20 @@ def cls : Outcome α → String
       let v := virtReader hdr len
       cls (readR Gen.headerMaxTables (fun off n => if off + n > k then .fault else v off n)))
 
-/-- expected verdicts of the property for fault point `k`: every `k` below the end of the last
-table must be rejected (`E`) by the seekable and by the streaming reader; nothing is demanded
-for the padding after the last table (`-`) -/
-@[noinline] def runExpect (lastEnd : Nat) (ks : List Nat) : String :=
-  "".intercalate (ks.map fun k => if k < lastEnd then "EE" else "--")
+/-- expected verdicts of the property for a file cut at `k`: every `k` below the end of the last
+table must be rejected (`E`) by the seekable reader and by the two streams ending with EOF at `k`;
+nothing is demanded for cuts in the padding after the last table (`-`) -/
+@[noinline] def runExpectTrunc (lastEnd : Nat) (ks : List Nat) : String :=
+  "".intercalate (ks.map fun k => if k < lastEnd then "EEE" else "---")
+
+/-- expected verdicts for sources failing at `k` (a ReaderAt, four kinds of streams): the ReaderAt
+must be rejected when `k` lies before the end of the last table (later offsets are never accessed);
+a stream is read to its end, so one that reports a non-EOF error before the end of the file
+(`k < len`) must be rejected — the model: `readAll f (some k) = err` for `k < |f|` -/
+@[noinline] def runExpectReader (lastEnd len : Nat) (ks : List Nat) : String :=
+  "".intercalate (ks.map fun k =>
+    if len ≤ k then "-----"
+    else (if k < lastEnd then "E" else "-") ++ "EEEE")
 
 /-! ### parser level -/
 
@@ -177,9 +186,9 @@ def handle (op : String) (fs : List (String × String)) : String :=
     | some hdr, some len, some mode => runRead mode hdr len ks
     | _, _, _ => "bad-case"
   else if op == "faults.trunc" || op == "faults.reader" then
-    match (getField fs "lastend").bind String.toNat? with
-    | some le => runExpect le ks
-    | none => "bad-case"
+    match (getField fs "lastend").bind String.toNat?, (getField fs "len").bind String.toNat? with
+    | some le, some len => if op == "faults.trunc" then runExpectTrunc le ks else runExpectReader le len ks
+    | _, _ => "bad-case"
   else if op == "faults.count" then
     -- the property: the count is what the destination took, error iff the file does not fit,
     -- success only with the whole file; "_" where the API reports no count
@@ -209,9 +218,10 @@ def handle (op : String) (fs : List (String × String)) : String :=
   else if op == "faults.tail" then
     -- the model: the directory is readable and every table is complete, so the readers accept,
     -- except the stream that fails (non-EOF) before its end: `io.ReadAll` returns that error
-    match (getField fs "len").bind String.toNat? with
-    | some len => "".intercalate (ks.map fun k => if k < len then "AAAE" else "AAAA")
-    | none => "bad-case"
+    match (getField fs "len").bind String.toNat?, (getField fs "probe").bind String.toNat? with
+    | some len, some probe =>
+      "".intercalate (ks.map fun k => if k < probe then "EEEE" else if k < len then "AAAE" else "AAAA")
+    | _, _ => "bad-case"
   else "bad-op"
 
 end SfntV.Drive.Faults
